@@ -171,33 +171,48 @@ class RefDecoder:
 
 
 def parse_written(data: bytes):
-    """Decode what the host wrote to the transport into events ('ack',n)/('nak',n)/('cnak',n)/
-    ('data', frm, retx, ack, payload)/('rst',)/('raw', hex)."""
+    """Decode what the host wrote to the transport THE WAY THE PEER'S RECEIVER DOES (UG101): a Cancel byte anywhere
+    discards what was received since the last Flag, a Substitute byte makes the receiver drop everything up to the next
+    Flag, XON/XOFF are removed, then unstuffing, CRC and classification.  Events: ('ack',n)/('nak',n)/('cnak',n)/
+    ('data', frm, retx, ack, payload)/('rst', cancelled)/('raw', hex) for an undecodable frame/('dropped', why)."""
     evs = []
-    i = 0
     cancel = False
+    dropping = False
     cur = bytearray()
     for b in data:
-        if b == CANCEL and not cur:
-            cancel = True
-            continue
         if b == FLAG:
-            raw = unstuff(bytes(cur))
-            fr = decode(raw) if raw else None
-            if fr is None:
-                evs.append(("raw", bytes(cur).hex()))
-            elif fr[0] == "ACK":
-                evs.append(("ack", fr[3]) if not cancel else ("cack", fr[3]))
-            elif fr[0] == "NAK":
-                evs.append(("cnak", fr[3]) if cancel else ("nak", fr[3]))
-            elif fr[0] == "DATA":
-                evs.append(("data", fr[1], fr[2], fr[3], fr[4]))
-            elif fr[0] == "RST":
-                evs.append(("rst", cancel))
-            else:
-                evs.append(("other",) + tuple(fr))
+            if dropping:
+                evs.append(("dropped", "substitute"))
+                dropping = False
+            elif cur:
+                raw = unstuff(bytes(cur))
+                fr = decode(raw) if raw else None
+                if fr is None:
+                    evs.append(("raw", bytes(cur).hex()))
+                elif fr[0] == "ACK":
+                    evs.append(("ack", fr[3]) if not cancel else ("cack", fr[3]))
+                elif fr[0] == "NAK":
+                    evs.append(("cnak", fr[3]) if cancel else ("nak", fr[3]))
+                elif fr[0] == "DATA":
+                    evs.append(("data", fr[1], fr[2], fr[3], fr[4]))
+                elif fr[0] == "RST":
+                    evs.append(("rst", cancel))
+                else:
+                    evs.append(("other",) + tuple(fr))
             cur = bytearray()
             cancel = False
+        elif dropping:
+            continue
+        elif b == CANCEL:
+            if cur:
+                evs.append(("dropped", "cancel byte inside a frame: " + bytes(cur).hex()))
+            cur = bytearray()
+            cancel = True
+        elif b == SUB:
+            cur = bytearray()
+            dropping = True
+        elif b in (XON, XOFF):
+            continue
         else:
             cur.append(b)
     if cur:
